@@ -69,6 +69,8 @@ fn paren_transparency(cx: &mut Ctx) {
         Ok(g) => g,
         Err(e) => return cx.anchor_missing(rule, &e),
     };
+    // acceptance must not depend on redundant parentheses: every context accepts the reviewed expression level
+    crate::rules::grammar_rules::expr_wiring(cx, &g, "C08.E1");
     if let Ok(generic) = sm::load(&cx.repo, "ast/src/gen/generic.rs") {
         let model = crate::astmodel::load(&generic);
         let paren_like: Vec<&String> = model.enums.get("Expr").map(|e| e.variants.iter().map(|v| &v.0).filter(|v| v.contains("Paren") || v.contains("Group")).collect()).unwrap_or_default();
